@@ -252,8 +252,9 @@ def _bound_type(t, comp_term, qvars, lo, hi, prefix=""):
 
 
 class Ctx:
-    def __init__(self):
+    def __init__(self, engine=None):
         self.objs = {}
+        self.engine = engine
 
     def real(self, x):
         """Decoded value -> real Python value."""
@@ -261,6 +262,11 @@ class Ctx:
             if x.ref in self.objs:
                 return self.objs[x.ref]
             b = BUILDERS.get(x.cls)
+            if b is None and self.engine is not None:
+                for c in self.engine.ct.mro(x.cls):
+                    if c in BUILDERS:
+                        b = BUILDERS[c]
+                        break
             if b is None:
                 raise DecodeError(f"no builder for class {x.cls}")
             fields = {}
